@@ -300,6 +300,11 @@ func (s *Super) absorb(j *journal, shard, of int) {
 			s.addViol(&Viol{Key: r.Key + "|budget", Unit: r.Unit, Seq: unitSeqOf(j, r.Unit), Case: jsonString(r.Key), Observed: fmt.Sprintf("library call did not return within %.1f CPU-s\n%s", r.CPU, r.Observed), Expected: "call returns (ordinary cases of this workload take milliseconds)", Kind: "budget"})
 		case "mem":
 			s.addViol(&Viol{Key: r.Key + "|mem", Unit: r.Unit, Seq: unitSeqOf(j, r.Unit), Observed: fmt.Sprintf("resident memory %d bytes during library call", r.V), Expected: "bounded memory", Kind: "mem"})
+		case "slowskip":
+			s.mu.Lock()
+			s.ObsMap["units_cut_short_after_repeated_slowness(not judged)"]++
+			s.unitsAb = append(s.unitsAb, r.Unit)
+			s.mu.Unlock()
 		case "harness_panic":
 			s.Inconclusive("harness panic in unit " + r.Unit + ": " + r.Msg + "\n" + r.Observed)
 		case "inconclusive":
@@ -359,6 +364,7 @@ func (s *Super) absorbNT(path string) {
 // runShard runs one shard to completion, restarting after deaths.
 func (s *Super) runShard(shard, of int) {
 	skip := map[string]bool{}
+	slowEvents, unitBudgetEvents := 0, 0
 	for attempt := 0; ; attempt++ {
 		tag := ""
 		if attempt > 0 {
@@ -373,6 +379,9 @@ func (s *Super) runShard(shard, of int) {
 			}
 			os.WriteFile(sf, []byte(strings.Join(names, "\n")), 0o644)
 			args = append(args, "--skip", sf)
+		}
+		if slowEvents >= 4 {
+			args = append(args, "--slow-capped")
 		}
 		stderrName := fmt.Sprintf("shard-%d%s.stderr", shard, tag)
 		code, err := s.runChild(args, stderrName)
@@ -406,6 +415,7 @@ func (s *Super) runShard(shard, of int) {
 			}
 			if r.T == "slow" && r.Unit == j.dead {
 				hasRec = true
+				slowEvents++
 				s.mu.Lock()
 				s.ObsMap["calls_abandoned_as_too_slow(not judged)"]++
 				s.slow = append(s.slow, r.Key)
@@ -413,6 +423,7 @@ func (s *Super) runShard(shard, of int) {
 			}
 			if r.T == "unit_budget" && r.Unit == j.dead {
 				hasRec = true
+				unitBudgetEvents++
 				s.Inconclusive(fmt.Sprintf("unit %s abandoned after %.0f CPU-s / %d bytes resident: the harness's own work ran away there (not a verdict about the library)", r.Unit, r.CPU, r.V))
 			}
 		}
@@ -430,6 +441,10 @@ func (s *Super) runShard(shard, of int) {
 			skip[u] = true
 		}
 		skip[j.dead] = true
+		if unitBudgetEvents >= 2 {
+			s.Inconclusive(fmt.Sprintf("shard %d given up after two units ran away (whatever was found so far is reported)", shard))
+			return
+		}
 		if attempt >= 30 {
 			s.Inconclusive(fmt.Sprintf("shard %d restarted more than 30 times", shard))
 			return
